@@ -47,7 +47,17 @@ def stress_job(rng, tier):
                                  {"path": "d/sub/shot.jpg", "data": "\xff\xd8\xff\xe0" + "j" * 100, "mtime": c10.T0},
                                  {"path": "pic.png", "data": "\x89PNG\r\n\x1a\n" + "p" * 100, "mtime": c10.T0},
                                  {"path": "d/.names", "data": "Path=./b.html\nName=Bee page\nNumb=1\n"}]
+    # large files with different contents: a response bigger than the socket buffers, so that downloads really overlap
+    for i, nm in enumerate(("big1.bin", "big2.bin", "big3.txt")):
+        unit = ("%s-%d|" % (nm, i)) * 8
+        tree.append({"path": "d/" + nm, "data": (unit * (300000 // len(unit) + 1))[:300000 + 1000 * i], "mtime": c10.T0})
     reqs = {}
+    for key, proto, gp in c10.PROTOKEYS:
+        if key in ("gopher", "http", "https", "spartan", "gopherplus+"):
+            for sel in (["/d/big1.bin", "/d/big2.bin", "/d/big3.txt"] if key != "gopherplus+" else []) + \
+                       ["/0/d/a.txt", "/1/d/sub", "/9/d/big1.bin"]:
+                data, tls = gen.request_bytes(proto, sel, gplus=gp)
+                reqs[key + " " + sel] = {"data": gen.lat(data), "tls": tls}
     for key, proto, gp in c10.PROTOKEYS:
         for sel in ["/d", "/", "/d/sub", "/d/a.txt", "/nothing-here"]:
             data, tls = gen.request_bytes(proto, sel, gplus=gp)
@@ -67,8 +77,11 @@ def stress_job(rng, tier):
     dnames = [n for n in names if n.endswith(" /d")]
     hnames = [n for n in names if n.split(" ")[0] in ("wapdetect", "browser", "http", "wap")]
 
+    bignames = [n for n in names if "/big" in n]
+
     def burst(n, rogues=0):
-        b = [rng.choice(dnames) if rng.random() < 0.5 else rng.choice(names + pnames) for _ in range(n)]
+        b = [rng.choice(dnames) if rng.random() < 0.4 else (rng.choice(bignames) if rng.random() < 0.4 else rng.choice(names + pnames))
+             for _ in range(n)]
         return {"names": b, "rogues": [rng.choice(["tls-garbage", "tls-abandon", "reset"]) for _ in range(rogues)]}
 
     def staggered(n):
@@ -94,7 +107,10 @@ def stress_job(rng, tier):
         perturbed.append({"nap": nap, "names": pn, "offsets": offs, "after": ["gopher /d", "http /d", "gopherplus$ /", "gemini /d/sub"]})
     seqs = [["http-head /d", "gopher /d", "http /d"], ["gopherplus! /", "gopherplus$ /", "wap /"],
             ["https-head /d/sub", "gemini /d/sub"]]
-    return {"perturbed": perturbed, "pairs": pairs, "probe_sequences": seqs,"op": "c14_stress", "tree": tree, "servertypes": ["ThreadingTCPServer", "ForkingTCPServer"],
+    import c11
+    return {"perturbed": perturbed, "pairs": pairs, "probe_sequences": seqs,
+            # the full-featured handler list (type-prefixed selectors, ZIP, compressed files ...), as conf/local.conf
+            "config": {"handlers.HandlerMultiplexer": {"handlers": c11.FULL_HANDLERS}},"op": "c14_stress", "tree": tree, "servertypes": ["ThreadingTCPServer", "ForkingTCPServer"],
             "requests": reqs, "bursts": [burst(sizes[0], 3), burst(sizes[1], 4), staggered(32), staggered(32)] + [burst(n, 2) for n in sizes[2:]],
             "probe": ["gopher /d", "http /", "gopherplus$ /d/sub", "wap /d"], "cold_each_burst": True}
 
@@ -353,7 +369,8 @@ def run(tier):
                              "start-up; every burst is joined by clients that never send a request (TLS first byte + garbage, abandoned "
                              "handshake, reset before the first byte); one burst connects everybody first and sends the requests at "
                              "scattered times (half of them the first byte at once and the rest later), with WAP-detected and desktop HTTP clients mixed; requests include HTTP HEAD and "
-                             "Gopher+ `!` on directories; deterministic two-client interleavings (one client has sent its first byte, "
+                             "Gopher+ `!` on directories, downloads of three different 300 KB files and type-prefixed selectors (full-featured "
+                             "handler list); deterministic two-client interleavings (one client has sent its first byte, "
                              "another is served completely, the first sends the rest); 10 s client time limit; afterwards: liveness probes, reaping, and after "
                              "shutdown no surviving process and a closed port; schedules are whatever the OS produced.  Perturbed leg (threading server): a freshly started "
                              "server in which re.compile, eval and ConfigParser.get sleep a few ms the first 4 times they are called "
